@@ -24,14 +24,17 @@ pub struct VerifSnapshot<'a, I, P> {
 
 impl<I, P, H> Store<I, P, H> {
     pub(crate) fn verif_snapshot(&self) -> VerifSnapshot<'_, I, P> {
+        // `IndexMap::len` debug-asserts its own consistency, which a caught panic
+        // inside the map may have broken: count the entries instead.
+        let slots: Vec<(&I, &P)> = (0..)
+            .map_while(|i| self.map.get_index(i))
+            .collect();
         VerifSnapshot {
             heap: self.heap.iter().map(|i| i.0).collect(),
             qp: self.qp.iter().map(|p| p.0).collect(),
             size: self.size,
-            map_len: self.map.len(),
-            slots: (0..self.map.len())
-                .filter_map(|i| self.map.get_index(i))
-                .collect(),
+            map_len: slots.len(),
+            slots,
         }
     }
 }
